@@ -40,8 +40,9 @@ pub open spec fn cache_msgs(p: &Partition) -> Seq<RetainedMessage> {
 // non-empty and ends right before its successor (segment files are named by start offset, so starts are distinct)
 pub open spec fn segs_wf(segs: Seq<Segment>) -> bool {
     &&& forall|i: int| 0 <= i < segs.len() ==> contig(seg_all(#[trigger] &segs[i]), segs[i].start_offset as int)
-    &&& forall|i: int| 0 <= i < segs.len() - 1 ==> seg_all(&segs[i]).len() > 0
-            && (#[trigger] segs[i]).start_offset + seg_all(&segs[i]).len() == segs[i + 1].start_offset
+    // (two bound variables so that the trigger names both neighbours: no matching loop)
+    &&& forall|i: int, j: int| 0 <= i && j == i + 1 && j < segs.len() ==> seg_all(&segs[i]).len() > 0
+            && (#[trigger] segs[i]).start_offset + seg_all(&segs[i]).len() == (#[trigger] segs[j]).start_offset
 }
 pub open spec fn sorted_by_start(segs: Seq<Segment>) -> bool {
     forall|i: int, j: int| 0 <= i < j < segs.len() ==> segs[i].start_offset < segs[j].start_offset
